@@ -56,6 +56,7 @@ var StdPkgs = []*Pkg{
 	}},
 	{Path: "sort", Name: "sort", Std: true, Decls: []*Decl{stdIface("Interface", "Len", "Less", "Swap")}},
 	{Path: "errors", Name: "errors", Std: true},
+	{Path: "unsafe", Name: "unsafe", Std: true, Decls: []*Decl{stdDecl("Pointer", true)}},
 	{Path: "strings", Name: "strings", Std: true, Decls: []*Decl{stdDecl("Builder", false), stdDecl("Reader", false)}},
 }
 
